@@ -15,7 +15,7 @@ Import ListNotations.
 Definition mut := (string * kind)%type.
 
 Definition kind_eqb (a b : kind) : bool :=
-  match a, b with KAny, KAny | KQ, KQ | KV, KV => true | _, _ => false end.
+  match a, b with KAny, KAny | KQ, KQ | KV, KV | KNever, KNever => true | _, _ => false end.
 Definition mut_eqb (a b : mut) : bool := String.eqb (fst a) (fst b) && kind_eqb (snd a) (snd b).
 
 Lemma mut_eqb_eq : forall a b, mut_eqb a b = true <-> a = b.
